@@ -12,6 +12,6 @@ def run(ctx):
     s = ctx['seed'] + 9
     return run_parts(ctx, [
         Part('joins', 'corr_joins', 'run', [s, 300 if q else 5000, None, 0.15, 0.5], specs={'empty_spec', 'sound_spec'}),
-        Part('filter_tables', 'corr_filters', 'run_tables', [s, 120 if q else 2500], specs={'empty_spec', 'sound_spec'}),
+        Part('filter_tables', 'corr_filters', 'run_tables', [s, 150 if q else 2500, None, 0.5], specs={'empty_spec', 'sound_spec'}),
         Part('filter_pair', 'corr_filters', 'run_pairs', [s, 300 if q else 5000], specs={'fp_empty_spec'}),
     ], RULE)
